@@ -86,6 +86,8 @@ def _run(dev, spec, opts_over=None, with_currents=True):
         fixed = np.array(solver.operators.fixed_sites)
         sol = solver.solve()
         frames, _ = sim.read_frames(sol.path)
+        # times at which the updates of the run were made (what a time-dependent drive was evaluated at)
+        opts._vt_update_times = np.concatenate([[0.0], np.cumsum(sol.dynamics.dt)[:-1]]) if len(sol.dynamics.dt) else np.array([])
     return frames, fixed, opts
 
 
@@ -130,6 +132,15 @@ def check_case(spec):
     if set(map(int, lib_sites)) != set(map(int, tsites)):
         res.fail("C06.terminal_sites", f"library treats sites {sorted(map(int, lib_sites))[:10]} as terminal sites, boundary sites inside the terminal polygons are {sorted(map(int, tsites))[:10]}")
         return res
+    if driven and spec["field"]["kind"] == "zero" and spec["currents"] is not None and spec["currents"]["kind"] == "callable":
+        # a current that is switched on during the run drives it only if some update was made after the switch (with an
+        # adaptive step the last update can come before it: such a run is undriven and psi = 1 stays exactly)
+        tt = getattr(opts, "_vt_update_times", np.array([]))
+        # (the potential built up by the first driven update acts on psi in the next one, so far-away sites only move from the
+        #  second or third driven update on)
+        if sum(build.current_factor(spec["currents"], float(t), opts.solve_time) != 0 for t in tt) < 3:
+            driven = False
+            res.label("current switched on during the last updates only: counted as undriven")
     res.nontrivial = driven and len(tsites) >= 4
     nsteps = int(frames[-1]["attrs"]["step"])
 
